@@ -21,7 +21,7 @@ import sys
 
 VERIF = os.path.dirname(os.path.abspath(__file__))
 sys.path.insert(0, VERIF)
-DEFAULT_MODULES = ["iosim.c09", "iosim.c08", "iosim.c07"]
+DEFAULT_MODULES = ["iosim.c09", "iosim.c08", "iosim.c07", "iosim.c10"]
 
 
 def digests(mod_name: str, start: int, n: int, prop: str | None = None) -> list[str]:
